@@ -1199,6 +1199,40 @@ func propC13Pom(c *pomCase) (ev.Outcome, error) {
 				cls["pom_upd_cdata_property"] = true
 			}
 		}
+		for _, p := range phs {
+			d := an.effDef(s, p)
+			if d == nil || s.profile == "" || d.profile != s.profile || d.file != s.file {
+				continue
+			}
+			for _, x := range an.defs {
+				if x == d || x.name != p {
+					continue
+				}
+				cls["pom_upd_multi_scope_property"] = true
+				switch {
+				case x.file == 1 && x.profile != "":
+					cls["pom_upd_multi_scope_parent_profile"] = true
+				case x.file == 1:
+					cls["pom_upd_multi_scope_parent"] = true
+				case x.profile == "":
+					cls["pom_upd_multi_scope_project_level"] = true
+				default:
+					later := false
+					for _, y := range an.defs {
+						if y == d {
+							later = true
+						} else if y == x {
+							break
+						}
+					}
+					if later {
+						cls["pom_upd_multi_scope_later_profile"] = true
+					} else {
+						cls["pom_upd_multi_scope_earlier_profile"] = true
+					}
+				}
+			}
+		}
 		switch {
 		case s.file == 1:
 			cls["pom_upd_in_parent_file"] = true
